@@ -6,12 +6,10 @@ On the functions `Model.World` runs when a socket observes the end of a connecti
 `peerDisconnected` (what each backend's `peer_disconnected` does, as coded) and the
 fair-queue poll `fqPoll`.  "Released" is read off the pipe's two `Drop` flags.
 
-The code is right for read errors, truncated streams, protocol errors (every fair-queue
-socket) and for write errors in the round-robin senders; it is NOT for an orderly EOF
-(swallowed by the fair queue: the write half stays registered — `C16_finding_eof_keeps_peer`)
-nor for REQ and for write errors in REQ/ROUTER/REP (`sendToPoll` keeps the peer).  Those
-pairs are enumerated in `known_findings.json`; PARTIAL: descriptor release is observed (pipe
-`Drop` flags, `/proc/self/fd` in the thorough tier), not modelled.
+The code is right for read errors, truncated streams, protocol errors, orderly EOF (after fix
+D12: the fair queue tells its owner when a stream ends — `C16_eof_forgets`) on every fair-queue
+socket, for write errors in every sender (after fix D13: `C16_write_error_forgets`) and for REQ
+(`C16_req_recv_forgets`).  PARTIAL: descriptor release is observed (pipe `Drop` flags), not modelled.
 -/
 namespace Zmq.C16
 open Zmq Zmq.W
@@ -60,70 +58,134 @@ theorem C16_isolated (ps : Pipes) (s : Socket) (k j : Ident) (h : j ≠ k) :
   cases s.typ <;> simp only [] <;>
     (try unfold fqRemove) <;> (repeat' split) <;> simp [ilookup_ierase_other _ _ _ h]
 
-/-- **Released (write half)**: the write half of the forgotten connection is dropped. -/
+theorem wDropped_dropR (ps : Pipes) (a b : Nat) :
+    (getPipe (dropR ps a) b).wDropped = (getPipe ps b).wDropped := by
+  unfold dropR
+  by_cases h : b = a
+  · subst h; simp [getPipe_setPipe_same]
+  · simp [getPipe_setPipe_other _ _ _ _ h]
+
+theorem wDropped_dropW (ps : Pipes) (a : Nat) : (getPipe (dropW ps a) a).wDropped = true := by
+  simp [dropW, getPipe_setPipe_same]
+
+/-- **Released (write half)**: the write half of the forgotten connection is dropped — for
+every socket type. -/
 theorem C16_released_write (ps : Pipes) (s : Socket) (k : Ident) (wr : Wr)
-    (hp : ilookup s.peers k = some wr) (hgen : s.typ = .pull ∨ s.typ = .push) :
+    (hp : ilookup s.peers k = some wr) :
     (getPipe (peerDisconnected ps s k).1 wr.pipe).wDropped = true := by
   unfold peerDisconnected
-  rcases hgen with h | h <;> simp only [hp, h]
-  · unfold fqRemove
-    split
-    · rename_i rd _
-      simp only [dropR, dropW]
-      by_cases e : rd.pipe = wr.pipe
-      · rw [e]; simp [getPipe_setPipe_same]
-      · rw [getPipe_setPipe_other _ _ _ _ (fun x => e x.symm)]; simp [getPipe_setPipe_same]
-    · simp [dropW, getPipe_setPipe_same]
-  · simp [dropW, getPipe_setPipe_same]
+  simp only [hp]
+  cases s.typ <;> simp only [] <;> (try unfold fqRemove) <;> (repeat' split) <;>
+    simp [wDropped_dropR, wDropped_dropW]
 
-/-- the fair-queue poll never touches the peer table -/
-theorem fqPoll_peers (fuel : Nat) (ps : Pipes) (sid : Nat) (s : Socket) :
-    (fqPoll fuel ps sid s).2.2.peers = s.peers := by
+theorem ilookup_ierase_none {α} (m : List (Ident × α)) (k j : Ident) (h : ilookup m j = none) :
+    ilookup (ierase m k) j = none := by
+  by_cases e : j = k
+  · subst e; exact ilookup_ierase_same _ _
+  · rw [ilookup_ierase_other _ _ _ e]; exact h
+
+/-- `peer_disconnected` never adds a peer -/
+theorem peerDisconnected_none (ps : Pipes) (s : Socket) (k j : Ident) (h : ilookup s.peers j = none) :
+    ilookup (peerDisconnected ps s k).2.peers j = none := by
+  unfold peerDisconnected
+  simp only []
+  cases s.typ <;> simp only [] <;>
+    (try unfold fqRemove) <;> (repeat' split) <;> simp [ilookup_ierase_none _ _ _ h]
+
+/-- the fair-queue poll never ADDS a peer: a key that is not in the peer table stays out -/
+theorem fqPoll_peers_none (fuel : Nat) (ps : Pipes) (sid : Nat) (s : Socket) (j : Ident)
+    (h : ilookup s.peers j = none) : ilookup (fqPoll fuel ps sid s).2.2.peers j = none := by
   induction fuel generalizing ps s with
-  | zero => rfl
+  | zero => exact h
   | succ n ih =>
     unfold fqPoll
     split
-    · rfl
+    · exact h
     · rename_i t k rest _
       simp only []
       split
-      · rw [ih]
+      · exact ih _ _ h
       · rename_i rd _
         generalize readerPoll _ _ _ _ = rp
         obtain ⟨r, ps', rd'⟩ := rp
         simp only []
         cases r with
-        | pending => simp only []; rw [ih]
-        | eof => simp only []; rw [ih]
-        | item i => rfl
-        | err e => rfl
+        | pending => simp only []; exact ih _ _ h
+        | eof => simp only []; exact ih _ _ (peerDisconnected_none _ _ _ _ h)
+        | item i => exact h
+        | err e => exact h
 
-/-- **Finding (orderly EOF)**: an orderly end of stream is consumed inside the fair queue — the
-stream is dropped there and nothing tells the backend — so whatever `recv` returns, the peer
-table still holds the departed peer's write half: later sends are still routed to it and its
-transport handle is never released.  (Recorded per socket type in `known_findings.json`.) -/
-theorem C16_finding_eof_keeps_peer (ps : Pipes) (sid : Nat) (s : Socket) (k : Ident) (wr : Wr)
+/-- **Orderly EOF forgets the peer** (after fix D12): when the fair-queue poll takes stream `k`
+and the stream has ended, then — whatever else this poll goes on to do and whatever `recv`
+returns — `k` is no longer in the peer table: no later send is routed to it … -/
+theorem C16_eof_forgets (fuel : Nat) (ps : Pipes) (sid : Nat) (s : Socket) (t : Nat) (k : Ident)
+    (rest : List (Nat × Ident)) (rd : Rd)
+    (hpop : popMinE s.fqHeap = some ((t, k), rest)) (hst : ilookup s.fqStreams k = some rd)
+    (heof : (readerPoll (readFuel ps rd) ps rd (.fq sid t k)).1 = .eof) :
+    ilookup (fqPoll (fuel + 1) ps sid s).2.2.peers k = none := by
+  unfold fqPoll
+  simp only [hpop, hst]
+  generalize hrp : readerPoll (readFuel ps rd) ps rd (.fq sid t k) = rp at heof
+  obtain ⟨r, ps', rd'⟩ := rp
+  simp only [] at heof
+  subst heof
+  simp only []
+  exact fqPoll_peers_none _ _ _ _ _ (C16_forgotten _ _ _)
+
+/-- … and its write half has been dropped (with the read half, which the queue did not put
+back): the transport handle is released. -/
+theorem C16_eof_releases (ps : Pipes) (s : Socket) (k : Ident) (rd : Rd) (wr : Wr)
     (hp : ilookup s.peers k = some wr) :
-    ilookup (fqPoll (s.fqHeap.length + 2) ps sid s).2.2.peers k = some wr := by
-  rw [fqPoll_peers]; exact hp
+    let r := peerDisconnected (dropR ps rd.pipe) s k
+    (getPipe r.1 wr.pipe).wDropped = true ∧ (getPipe (dropR ps rd.pipe) rd.pipe).rDropped = true := by
+  refine ⟨C16_released_write _ _ _ _ hp, ?_⟩
+  simp [dropR, getPipe_setPipe_same]
 
-/-- **Finding (REQ / ROUTER / REP write error)**: a failed write through `sendToPoll` returns the
-error but leaves the peer registered. -/
-theorem C16_finding_write_error_keeps_peer (w : World) (sid : Nat) (s : Socket) (k : Ident) (wr : Wr)
-    (st : SendSt) (hs : getSock w sid = some s) (hp : ilookup s.peers k = some wr)
-    (w' : World) (f : FutSt) (h : sendToPoll w sid k st false = (w', f, .ready (.err .io))) :
-    ∃ s' wr', getSock w' sid = some s' ∧ ilookup s'.peers k = some wr' := by
-  simp only [sendToPoll, hs, hp] at h
-  generalize wrSendPoll w.pipes wr st = q at h
-  obtain ⟨ps, wr', st', r⟩ := q
-  cases r with
-  | pending => simp at h
-  | done => simp at h
-  | error =>
-    simp at h
-    obtain ⟨rfl, _⟩ := h
-    exact ⟨_, wr', getSock_setSock_same _ _ _, ilookup_iinsert_same _ _ _⟩
+/-- **A failed write forgets the peer** (REQ / ROUTER / REP, after fix D13): when the write
+through `sendToPoll` fails, the error is returned and the peer is no longer in the peer table —
+no later send is routed to it. -/
+theorem C16_write_error_forgets (w : World) (sid : Nat) (k : Ident) (st : SendSt) (b : Bool)
+    (w' : World) (f : FutSt) (h : sendToPoll w sid k st b = (w', f, .ready (.err .io))) :
+    ∃ s', getSock w' sid = some s' ∧ ilookup s'.peers k = none := by
+  unfold sendToPoll at h
+  cases hs : getSock w sid with
+  | none => simp [hs] at h
+  | some s =>
+    simp only [hs] at h
+    cases hp : ilookup s.peers k with
+    | none => simp [hp] at h
+    | some wr =>
+      simp only [hp] at h
+      generalize wrSendPoll w.pipes wr st = q at h
+      obtain ⟨ps, wr', st', r⟩ := q
+      cases r with
+      | pending => simp at h
+      | done => simp at h
+      | error =>
+        simp at h
+        obtain ⟨rfl, _⟩ := h
+        exact ⟨_, getSock_setSock_same _ _ _, C16_forgotten _ _ _⟩
+
+/-- **REQ forgets a server whose connection ended or failed** (after fix D13): when the awaited
+reply turns out to be an end of stream or a stream error, `recv` returns the error once and the
+peer is gone from the table (and from the set of read halves). -/
+theorem C16_req_recv_forgets (w : World) (sid : Nat) (s : Socket) (k : Ident) (rd : Rd)
+    (hs : getSock w sid = some s) (hc : s.current = some k) (hrd : ilookup s.reqRd k = some rd)
+    (hend : (readerPoll (readFuel w.pipes rd) w.pipes rd .user).1 = .eof ∨
+            ∃ e, (readerPoll (readFuel w.pipes rd) w.pipes rd .user).1 = .err e) :
+    ∃ s', getSock (reqRecvPoll w sid).1 sid = some s' ∧ ilookup s'.peers k = none ∧ s'.current = none := by
+  unfold reqRecvPoll
+  simp only [hs, hc, hrd]
+  generalize readerPoll (readFuel w.pipes rd) w.pipes rd .user = rp at hend
+  obtain ⟨r, ps, rd'⟩ := rp
+  simp only [] at hend
+  rcases hend with rfl | ⟨e, rfl⟩
+  · refine ⟨_, getSock_setSock_same _ _ _, C16_forgotten _ _ _, ?_⟩
+    simp only [peerDisconnected]
+    cases s.typ <;> simp only [] <;> (try unfold fqRemove) <;> (repeat' split) <;> rfl
+  · refine ⟨_, getSock_setSock_same _ _ _, C16_forgotten _ _ _, ?_⟩
+    simp only [peerDisconnected]
+    cases s.typ <;> simp only [] <;> (try unfold fqRemove) <;> (repeat' split) <;> rfl
 
 /-- non-vacuity: disconnecting one of two PULL peers keeps the other and drops both halves -/
 example :
